@@ -421,7 +421,12 @@ def run(ctx, report, status):
     )
     for name, case in core.load_corpus(PROP):
         check_case(ctx, report, case, "corpus:" + name)
-    for _ in range(ctx.n(150, 2500)):
+    # exhaustive small scope: every row of <= 4 costs over {NaN, 0, 1, 2}, both measures (1 x 256 crosses two blocks)
+    for k in (1, 2, 3, 4):
+        for is_max in (False, True):
+            check_case(ctx, report, gen_exhaustive_rows(k, is_max, rng.choice([None, "NaN", 0])), "exhaustive_rows")
+            report.count("exhaustive_rows_cases")
+    for _ in range(ctx.n(150, 8000)):
         case = gen_direct(rng)
         check_case(ctx, report, case, "direct")
         report.count("direct_small")
@@ -435,11 +440,28 @@ def run(ctx, report, status):
             case = gen_direct(rng, shape)
             check_case(ctx, report, case, "direct")
             report.count("direct_block_boundary")
-    for _ in range(ctx.n(40, 600)):
+    for _ in range(ctx.n(40, 2000)):
         case = gen_machine(rng)
         check_case(ctx, report, case, "machine")
         report.count("machine")
         report.count(f"machine_{case['measure']}")
+
+
+def gen_exhaustive_rows(k, is_max, invalid_cfg):
+    """every cost row of length k over {NaN, 0, 1, 2} as the pixels of one 1 x 4^k volume (all tie and NaN patterns)"""
+    import itertools
+
+    alphabet = [float("nan"), 0.0, 1.0, 2.0]
+    rows = list(itertools.product(alphabet, repeat=k))
+    cost = np.array(rows, dtype=float).reshape(1, len(rows), k)
+    disps = [-1 + j / 2 for j in range(k)]
+    n = len(rows)
+    return {
+        "kind": "direct", "rows": 1, "cols": n, "disps": enc_arr(disps), "is_max": is_max, "cost": enc_arr(cost),
+        "lo": enc_arr(np.full((1, n), disps[0])), "hi": enc_arr(np.full((1, n), disps[-1])),
+        "invalid_cfg": invalid_cfg, "flags": np.zeros((1, n), dtype=int).tolist(), "conf": None, "indicators": None,
+        "row0": 0, "col0": 0,
+    }
 
 
 def search(ctx, report, status):
@@ -449,6 +471,11 @@ def search(ctx, report, status):
 
     sub = core.Report(PROP, ctx.tier, ctx.seed)
     rng = random.Random(12345 + ctx.seed)
+    for k in (1, 2, 3, 4):
+        for is_max in (False, True):
+            check_case(ctx, sub, gen_exhaustive_rows(k, is_max, None), "search", compare_model=False)
+            if sub.failures:
+                return sub.failures[0]
     plan = [(s, None) for s in BOUNDARY_SHAPES_QUICK] + [(None, None)] * 150 + [(s, None) for s in BOUNDARY_SHAPES_THOROUGH[:4]]
     for shape, _ in plan:
         case = gen_direct(rng, shape)
